@@ -513,7 +513,9 @@ def gen_case(rng, mode):
         for _ in range(rng.choice([1, 2, 3, 4, 5, 6])):
             k = rng.choice(["func", "func", "type", "var", "var", "const", "const", "init", "blankfunc"])
             if k == "func":
-                d = g.func("o", avail)
+                d = g.func("o", avail, name=("main" if rng.random() < 0.06 and not g.features & {"func-main"} else None))
+                if d["name"] == "main":
+                    g.features.add("func-main")
                 d["doc"] = g.lookalike_doc()
                 decls.append(d)
             elif k == "type":
@@ -574,11 +576,27 @@ def gen_case(rng, mode):
         orig_files.append(f)
         norig += 1
     # methods, in any file
+    func_names = [d["name"] for f in orig_files for d in f["decls"]
+                  if d["k"] == "func" and not d.get("recv") and d["name"] not in ("init", "_")]
     for s, fi in types:
-        for _ in range(rng.choice([0, 1, 2, 3])):
+        used = set()
+        for _ in range(rng.choice([0, 1, 2, 3, 4])):
             tf = rng.randrange(norig)
             recv = {"t": s["name"], "ptr": rng.random() < 0.5, "tp": s["tp"], "tpn": "T"}
-            m = g.func("o", orig_files[tf]["avail"], recv=recv)
+            # method names that look like something else: init / main / blank / a type name / a function name
+            mname = None
+            if rng.random() < 0.45:
+                pool = ["init", "init", "main", "_", s["name"], rng.choice(types)[0]["name"]] + \
+                       ([rng.choice(func_names)] if func_names else [])
+                mname = rng.choice(pool)
+                if mname in used:
+                    mname = None
+                else:
+                    used.add(mname)
+                    g.features.add("method-named-" + ("init" if mname == "init" else "main" if mname == "main" else
+                                                      "blank" if mname == "_" else "like-type" if mname.startswith("T")
+                                                      else "like-func"))
+            m = g.func("o", orig_files[tf]["avail"], recv=recv, name=mname)
             orig_files[tf]["decls"].insert(rng.randrange(len(orig_files[tf]["decls"]) + 1), m)
     # imports actually needed
     for f in orig_files:
@@ -629,9 +647,10 @@ def gen_case(rng, mode):
     for f in orig_files[:-1]:
         for d in f["decls"]:
             if d["k"] == "func":
-                if d.get("stable") and d["name"] not in ("init", "_"):
+                special = d["name"] in ("init", "_") and not d.get("recv")   # package-level init / blank function
+                if d.get("stable") and not special:
                     continue
-                if d["name"] in ("init", "_"):
+                if special:
                     if rng.random() < 0.15:
                         o = g.func("v", ["pkga"], name=d["name"], generic=False, stable=True)
                         ov_funcs.append(o)
@@ -712,7 +731,8 @@ def gen_case(rng, mode):
         u = g.uid()
         ov_types.append({"name": "NT%d" % u, "tp": 0, "under": "[%d]bool" % u, "purge": rng.random() < 0.2})
         if not ov_types[-1]["purge"] and rng.random() < 0.5:
-            ov_funcs.append(g.func("v", ["pkga"], recv={"t": "NT%d" % u, "ptr": True, "tp": 0, "tpn": "T"}))
+            ov_funcs.append(g.func("v", ["pkga"], recv={"t": "NT%d" % u, "ptr": True, "tp": 0, "tpn": "T"},
+                                   name=rng.choice([None, "init", "main", "_"])))
     for _ in range(rng.choice([0, 1, 2, 3])):
         ov_vals.append({"tok": rng.choice(["var", "const"]), "name": "n%d" % g.uid(), "purge": rng.random() < 0.2})
     if rng.random() < 0.2:
@@ -794,7 +814,7 @@ def gen_case(rng, mode):
 # ------------------------------------------------------------------------------------------------
 # the check
 
-THEOREMS = ["init_never_overridden", "init_function_kept", "overrides_table", "merge_names", "order_preserved",
+THEOREMS = ["init_never_overridden", "init_function_kept", "funcKey_method_ne_init", "method_named_init_overridable", "overrides_table", "merge_names", "order_preserved",
             "values_untouched", "witness_model_values", "witness_spec_values", "const_values_counterexample",
             "const_orphaned_counterexample", "values_untouched_const_partial", "values_untouched_const_group", "imports_pruned",
             "imports_pruned_keeps_declarations", "nosync_substitution"]
@@ -817,6 +837,48 @@ def run_pairs(reqs, show=False):
     if len(out) != len(reqs):
         raise RuntimeError("gvh_c12 answered %d lines for %d requests" % (len(out), len(reqs)))
     return out
+
+
+def sequence_tie_generated(reqs):
+    """real parseAndAugment vs hook sequence on generated pairs (see run)"""
+    import shutil
+    tmp = C.scratch("c12seq")
+    try:
+        repo2 = os.path.join(tmp, "repo")
+        shutil.copytree(C.REPO, repo2, ignore=shutil.ignore_patterns(".git"), symlinks=True)
+        lines = []
+        for i, r in enumerate(reqs):
+            ip = "c12gen/c%04d" % i
+            ovd = os.path.join(repo2, "compiler", "natives", "src", "c12gen", "c%04d" % i)
+            os.makedirs(ovd)
+            for j, src in enumerate(r["ov"]):
+                open(os.path.join(ovd, "ov%d.go" % j), "w").write(src)
+            od = os.path.join(tmp, "orig", "c%04d" % i)
+            os.makedirs(od)
+            names = []
+            for j, src in enumerate(r["orig"]):
+                names.append("orig%d.go" % j)
+                open(os.path.join(od, names[-1]), "w").write(src)
+            lines.append(json.dumps({"ip": ip, "dir": od, "files": names}))
+        mod = os.path.join(tmp, "alt.mod")
+        open(mod, "w").write(open(os.path.join(C.HARNESS, "go.mod")).read().replace("=> /repo", "=> " + repo2))
+        shutil.copyfile(os.path.join(repo2, "go.sum"), os.path.join(tmp, "alt.sum"))
+        binp = os.path.join(tmp, "gvh_c12_seq")
+        with C.Lock("gobuild"):
+            p = C.sh(["go", "build", "-tags", "verif", "-modfile", mod, "-o", binp, "./cmd/gvh_c12"], cwd=C.HARNESS, timeout=1800)
+        if p.returncode != 0:
+            raise RuntimeError("go build of the sequence harness failed:\n" + (p.stdout + p.stderr)[-3000:])
+        import subprocess
+        q = subprocess.run([binp, "callergen", repo2], input="\n".join(lines) + "\n", capture_output=True, text=True,
+                           timeout=3600, env=C.env())
+        if q.returncode != 0:
+            raise RuntimeError("callergen failed: " + q.stderr[-3000:])
+        out = [json.loads(l) for l in q.stdout.split("\n") if l.strip()]
+        if len(out) != len(reqs):
+            raise RuntimeError("callergen answered %d lines for %d pairs: %s" % (len(out), len(reqs), q.stderr[-1000:]))
+        return out
+    finally:
+        shutil.rmtree(tmp, ignore_errors=True)
 
 
 def parse_consts(s):
@@ -915,49 +977,6 @@ def run(tier, seed):
                     chk.add_mismatch(tag + "-const-values-gotypes", json.dumps(reqs[i]), a["consts_after"], a["consts_before"],
                                      signature=const_signature(a["consts_before"], a["consts_after"], a["tc_after"]))
 
-    tie("gen", reqs + wit, answers, cases)
-
-    # the real overlays of compiler/natives/src against synthetic originals
-    p = C.run_gvh(["corpus", os.path.join(C.REPO, "compiler", "natives", "src")], name="gvh_c12")
-    if p.returncode != 0:
-        raise RuntimeError("gvh_c12 corpus failed: " + p.stderr[-2000:])
-    creqs = [json.loads(l) for l in p.stdout.split("\n") if l.strip()]
-    for r in creqs:
-        r.pop("tag", None)
-    canswers = run_pairs(creqs)
-    usable = [(r, a) for r, a in zip(creqs, canswers) if not a.get("error") and not a.get("odd")]
-    chk.extra["natives_corpus"] = {"packages": len(creqs), "usable": len(usable),
-                                   "skipped": [(r["ip"], a.get("error") or a.get("odd")) for r, a in zip(creqs, canswers)
-                                               if a.get("error") or a.get("odd")][:20]}
-    if len(usable) < 40:
-        raise RuntimeError("natives corpus: only %d usable packages" % len(usable))
-    tie("natives", [r for r, _ in usable], [a for _, a in usable], None)
-
-    # the real parseAndAugment (file selection, parsing, call order, `delete(overrides, "init")`) vs the hook sequence
-    tmp = C.scratch("c12")
-    try:
-        p = C.run_gvh(["caller", C.REPO, os.path.join(C.REPO, "compiler", "natives", "src"), tmp], name="gvh_c12")
-    finally:
-        import shutil
-        shutil.rmtree(tmp, ignore_errors=True)
-    if p.returncode != 0:
-        raise RuntimeError("gvh_c12 caller failed: " + p.stderr[-2000:])
-    crs = [json.loads(l) for l in p.stdout.split("\n") if l.strip()]
-    if len([r for r in crs if not r.get("error")]) < 30:
-        raise RuntimeError("caller tie: too few packages: %s" % [r.get("error") for r in crs][:5])
-    for r in crs:
-        if r.get("error"):
-            continue
-        chk.add_case("parseAndAugment-sequence", r["ip"], kindkey="tie:parseAndAugment-sequence")
-        if not r["same"]:
-            a, b = "\n".join(r["a"]), "\n".join(r["b"])
-            if "func init()" in b and a.count("func init()") < b.count("func init()"):
-                chk.add_mismatch("parseAndAugment-sequence", "natives package %s + synthetic original with func init" % r["ip"],
-                                 "%d init functions" % a.count("func init()"), "%d init functions" % b.count("func init()"),
-                                 signature="C12 original init function removed")
-            chk.add_tie_break("parseAndAugment-sequence", r["ip"], a[:1500], b[:1500])
-    chk.extra["parseAndAugment_sequence_packages"] = len(crs)
-
     # property-level oracle: expectation from the generator's own description; type-check of consistent pairs
     ntriv = 0
     for c, r, a in zip(cases, reqs, answers):
@@ -1006,6 +1025,67 @@ def run(tier, seed):
                                  signature=sig or "C12 merged-package-type-error")
     chk.extra["nontrivial_generated_cases"] = ntriv
     chk.extra["generated_cases"] = len(cases)
+
+    tie("gen", reqs + wit, answers, cases)
+
+    # the real overlays of compiler/natives/src against synthetic originals
+    p = C.run_gvh(["corpus", os.path.join(C.REPO, "compiler", "natives", "src")], name="gvh_c12")
+    if p.returncode != 0:
+        raise RuntimeError("gvh_c12 corpus failed: " + p.stderr[-2000:])
+    creqs = [json.loads(l) for l in p.stdout.split("\n") if l.strip()]
+    for r in creqs:
+        r.pop("tag", None)
+    canswers = run_pairs(creqs)
+    usable = [(r, a) for r, a in zip(creqs, canswers) if not a.get("error") and not a.get("odd")]
+    chk.extra["natives_corpus"] = {"packages": len(creqs), "usable": len(usable),
+                                   "skipped": [(r["ip"], a.get("error") or a.get("odd")) for r, a in zip(creqs, canswers)
+                                               if a.get("error") or a.get("odd")][:20]}
+    if len(usable) < 40:
+        raise RuntimeError("natives corpus: only %d usable packages" % len(usable))
+    tie("natives", [r for r, _ in usable], [a for _, a in usable], None)
+
+    # the real parseAndAugment (file selection, parsing, call order, `delete(overrides, "init")`) vs the hook sequence
+    tmp = C.scratch("c12")
+    try:
+        p = C.run_gvh(["caller", C.REPO, os.path.join(C.REPO, "compiler", "natives", "src"), tmp], name="gvh_c12")
+    finally:
+        import shutil
+        shutil.rmtree(tmp, ignore_errors=True)
+    if p.returncode != 0:
+        raise RuntimeError("gvh_c12 caller failed: " + p.stderr[-2000:])
+    crs = [json.loads(l) for l in p.stdout.split("\n") if l.strip()]
+    if len([r for r in crs if not r.get("error")]) < 30:
+        raise RuntimeError("caller tie: too few packages: %s" % [r.get("error") for r in crs][:5])
+    for r in crs:
+        if r.get("error"):
+            continue
+        chk.add_case("parseAndAugment-sequence", r["ip"], kindkey="tie:parseAndAugment-sequence")
+        if not r["same"]:
+            a, b = "\n".join(r["a"]), "\n".join(r["b"])
+            if "func init()" in b and a.count("func init()") < b.count("func init()"):
+                chk.add_mismatch("parseAndAugment-sequence", "natives package %s + synthetic original with func init" % r["ip"],
+                                 "%d init functions" % a.count("func init()"), "%d init functions" % b.count("func init()"),
+                                 signature="C12 original init function removed")
+            chk.add_tie_break("parseAndAugment-sequence", r["ip"], a[:1500], b[:1500])
+    chk.extra["parseAndAugment_sequence_packages"] = len(crs)
+
+    # the same for GENERATED pairs: overlays are written into the natives tree of a scratch copy of the repo, a harness
+    # binary is built against that copy (natives are embedded at build time), and the real parseAndAugment runs on them
+    nseq = 600 if tier == "thorough" else 150
+    seq_results = sequence_tie_generated(reqs[:nseq])
+    for i, r in enumerate(seq_results):
+        if r.get("error"):
+            raise RuntimeError("generated sequence tie: %s on %s" % (r["error"], json.dumps(reqs[i])[:1500]))
+        chk.add_case("parseAndAugment-sequence-generated", json.dumps(reqs[i]), kindkey="tie:parseAndAugment-sequence-generated")
+        if not r["same"]:
+            ta, tb = "\n".join(r["a"]), "\n".join(r["b"])
+            if ta.count("func init()") < tb.count("func init()"):
+                chk.add_mismatch("parseAndAugment-sequence-generated", json.dumps(reqs[i]),
+                                 "%d init functions" % ta.count("func init()"), "%d init functions" % tb.count("func init()"),
+                                 signature="C12 original init function removed")
+            chk.add_tie_break("parseAndAugment-sequence-generated", json.dumps(reqs[i]), "\n".join(r["a"])[:3000], "\n".join(r["b"])[:3000])
+    chk.extra["parseAndAugment_sequence_generated_pairs"] = len(seq_results)
+
     return chk.finish()
 
 
